@@ -87,6 +87,22 @@ func probeStatus(in *Inst, op *Op, t reflect.Type, code int) (int, string) {
 	saved := in.Respond
 	in.Respond = func(c *Call) reflect.Value { return v }
 	req := httptest.NewRequest(op.Method, "http://h.example"+escapeForURL(in.P.BasePath+concretePath(op.Template)), nil)
+	// (a secured operation is probed with a credential for every scheme; whether it is
+	// admitted depends on the authenticators the caller installed)
+	if cs := in.P.Doc.Components; cs != nil && len(in.P.Doc.EffectiveSecurity(op.Spec)) > 0 {
+		q := req.URL.Query()
+		for _, sch := range cs.SecuritySchemes {
+			switch refmodel.SchemeKind(sch) {
+			case "bearer":
+				req.Header.Set("Authorization", "Bearer probe")
+			case "apikey-header":
+				req.Header.Set(sch.Name, "probe")
+			case "apikey-query":
+				q.Set(sch.Name, "probe")
+			}
+		}
+		req.URL.RawQuery = q.Encode()
+	}
 	in.Reset()
 	rec, pan := in.Serve(req)
 	in.Respond = saved
